@@ -433,6 +433,9 @@ def probe():
         second = third = f"raises {type(e).__name__}"
     facts["stepsFromSpecs"] = (second == 2 and third == 1)
     facts["history_probe"] = {"steps_of_second_run_dt_0.5": second, "steps_of_third_run_dt_1": third}
+    # the only non-terminating case: EVERY agent creates an agent when it acts. The real `for agent in model.agents` keeps finding a new
+    # last element; a watchdog in act() stops it after K acts so that the probe returns (the loop itself would not)
+    facts["unbounded"] = unbounded_probe(40)
     # mid-step iteration semantics on the real scheduler: agent 0 creates agent 2 (acts in this step), agent 2 creates agent 3
     # (nested, acts in this step), deletes agent 0 (the list object is rebound) and creates agent 4 (acts from the next step on)
     case = {"start": 1, "stop": 1, "n": 1, "collect": 1, "k0": 2, "mode": "run",
@@ -442,6 +445,32 @@ def probe():
     facts["midstep"] = {"acted": bl[0]["acted"] if bl else None, "pop": [a.id for a in m.agents], "next": m.next_agent_id,
                         "bound": list(create_bound(case))}
     return facts
+
+
+def unbounded_probe(k):
+    from BPTK_Py import Model, Agent, SimultaneousScheduler, DataCollector
+
+    class Watchdog(Exception):
+        pass
+
+    class Spawner(Agent):
+        def act(self, time, round_no, step_no):
+            self.model._acted.append(self.id)
+            if len(self.model._acted) >= k:
+                raise Watchdog()
+            self.model.create_agent("a", {})
+
+    m = Model(name="c12u", scheduler=SimultaneousScheduler(), data_collector=DataCollector())
+    m._acted = []
+    m.register_agent_factory("a", lambda aid, model, props: Spawner(aid, model, props, "a"))
+    m.run_specs(0, 0, 1)
+    m.create_agent("a", {})
+    stopped_by = "the loop ended by itself"
+    try:
+        m.scheduler.run_step(m, 0, 0, None, True)
+    except Watchdog:
+        stopped_by = "watchdog"
+    return {"k": k, "acted": m._acted, "stopped_by": stopped_by, "agents_alive": len(m.agents)}
 
 
 def gen_lean(facts):
@@ -457,6 +486,17 @@ def gen_lean(facts):
     elif good:
         body += ("theorem history_violated : ¬ C12_history cfg hcfg := C12_history_witness cfg (by decide) hcfg (by decide)\n"
                  "#print axioms history_violated\n")
+    ub = facts.get("unbounded") or {}
+    if ub.get("stopped_by") == "watchdog":
+        lst_ = "[" + ", ".join(map(str, ub["acted"])) + "]"
+        body += ("def spawnProg : Prog := { quietProg with act := fun _ _ _ => [.create] }\n"
+                 "/-- every agent creates an agent when it acts: the real loop was still visiting fresh agents when the probe's watchdog stopped it after\n"
+                 f"{ub['k']} acts; the model with fuel {ub['k']} has visited the same ids and is still not done (`stuck`) — and is so for EVERY fuel (agentLoop_diverges) -/\n"
+                 f"theorem unbounded_probe : (agentLoop spawnProg 0 0 {ub['k']} ⟨[0], true, ⟨[0], 1⟩⟩ []).1 = {lst_} ∧\n"
+                 f"    (agentLoop spawnProg 0 0 {ub['k']} ⟨[0], true, ⟨[0], 1⟩⟩ []).2.2 = true := by decide\n"
+                 "theorem unbounded_forever : ∀ fuel, (agentLoop spawnProg 0 0 fuel ⟨[0], true, ⟨[0], 1⟩⟩ []).2.2 = true :=\n"
+                 "  fun fuel => agentLoop_diverges spawnProg 0 0 (fun _ => ⟨rfl, rfl⟩) fuel _ [] rfl (by simp)\n"
+                 "#print axioms unbounded_probe\n#print axioms unbounded_forever\n")
     ms = facts.get("midstep") or {}
     mid = ""
     if ms.get("acted") is not None:
@@ -526,6 +566,24 @@ def gen_midstep_cases():
     return cases
 
 
+def gen_negative_cases():
+    """wave 6: negative start times with dt in {1, 0.5, 0.25}, data collection on and off: whole runs (quiet and with a create/delete
+    program in a negative round), the whole grid driven externally step by step through scheduler.run_step(model, r, s), and
+    Model.run_step(s) for every step of a round."""
+    cases = []
+    for start in (-3, -2, -1):
+        for stop in sorted({start, start + 1, 0}):
+            for n in (1, 2, 4):
+                for collect in (0, 1):
+                    g = [(r, s) for r in range(start, stop + 1) for s in range(n)]
+                    base = {"start": start, "stop": stop, "n": n, "collect": collect, "k0": 2, "negative": True}
+                    cases.append(dict(base, prog=[], mode="run"))
+                    cases.append(dict(base, prog=[["A", start, n - 1, 0, ["c", "d1"]], ["E", stop, 0, 0, ["c"]]], mode="run"))
+                    cases.append(dict(base, prog=[["A", start, 0, 1, ["c"]]], mode="steps", steps=[["sched", r, s] for r, s in g]))
+                    cases.append(dict(base, prog=[], mode="steps", steps=[["model", s] for s in range(n)]))
+    return cases
+
+
 def gen_cancel_cases():
     """scheduler.running cleared in begin_round / end_round of every position of a 2x2 and a 1x3 grid, once also twice, with and
     without a second `run` afterwards (the flag is never set back)."""
@@ -559,6 +617,7 @@ def gen_cases(chk):
                       "prog": [["A", a, 0, 0, ["c", "d1", "c"]]], "mode": "run"})
     cases += gen_midstep_cases()
     cases += gen_cancel_cases()
+    cases += gen_negative_cases()
     # random whole runs with programs
     for _ in range(120 if chk.quick else 2500):
         start = rng.range(-6, 6)
@@ -685,6 +744,7 @@ def run(chk):
         "scheduler history model (Sched, callOn): what survives between calls is the population (and, in the defective branch probed as "
         "SchedCfg.stepsFromSpecs = false, a cached steps-per-round); C12_history: every call equals the call on a fresh scheduler",
     ]
+    chk.notes["unbounded_creation"] = facts.get("unbounded")
     chk.assumptions = ["integer starttime/stoptime (range() requires it), dt = 1/n with round(1/dt) = n ≥ 1",
                        "termination of a step is proved (agentLoop_terminates / run_terminates) under the explicit bound CreateBound N c: every agent creates "
                        "at most c agents in its handle_events+act of a step and agents with id ≥ N create nobody; the driver runs every case with exactly the "
@@ -713,7 +773,7 @@ def run(chk):
     soft = [False, False]            # lines of cancelled runs: compared as evidence, never a finding
     first_spec = None
     dist = {"run": 0, "steps": 0, "with_program": 0, "stop<=0": 0, "empty_span": 0, "steps_total": 0, "n": {}, "max_fuel_bound": 0,
-            "labels_pow2_on_grid": 0, "labels_other_on_grid": 0, "labels_other_off_grid": 0, "nested_creation_steps": 0, "cancelled_runs": 0, "reruns": 0, "midstep_systematic": 0}
+            "labels_pow2_on_grid": 0, "labels_other_on_grid": 0, "labels_other_off_grid": 0, "nested_creation_steps": 0, "cancelled_runs": 0, "reruns": 0, "midstep_systematic": 0, "negative_start_systematic": 0}
     for ci, case in enumerate(cases):
         lines, log, crashed, m, dt = run_real(case, span)
         bn, bc = create_bound(case)
@@ -723,6 +783,7 @@ def run(chk):
         dist["cancelled_runs"] += bool(case["mode"] == "run" and cancel_positions(case))
         dist["reruns"] += bool(case.get("rerun"))
         dist["midstep_systematic"] += bool(case.get("midstep"))
+        dist["negative_start_systematic"] += bool(case.get("negative"))
         from fractions import Fraction
         for e in log:
             if e[0] == "B":
